@@ -131,3 +131,26 @@ Proof.
   - apply sort_sorted. eapply Permutation_NoDup; [apply Permutation_map, Hp|exact Hnd].
   - rewrite sort_perm, sort_perm. exact Hp.
 Qed.
+
+Lemma NoDup_map_filter {A B} (g : A -> B) (f : A -> bool) l :
+  NoDup (map g l) -> NoDup (map g (filter f l)).
+Proof.
+  induction l as [|x r IH]; simpl; intros H; [constructor|].
+  inversion H as [|? ? Hn Hr]; subst.
+  destruct (f x); simpl; [|auto].
+  constructor; [|auto]. intro Hin. apply Hn.
+  apply in_map_iff in Hin. destruct Hin as [y [Hy Hin]].
+  apply filter_In in Hin. rewrite <- Hy. apply in_map, Hin.
+Qed.
+
+Lemma sorted_voted_insertion_independent l l' :
+  Permutation l l' -> NoDup (map snd l) -> sorted_voted l = sorted_voted l'.
+Proof.
+  intros Hp Hnd. unfold sorted_voted. apply sort_insertion_independent.
+  - clear Hnd. induction Hp; simpl.
+    + constructor.
+    + destruct (0 <? fst x); [constructor|]; assumption.
+    + destruct (0 <? fst x), (0 <? fst y); try reflexivity; try apply perm_swap.
+    + etransitivity; eassumption.
+  - apply NoDup_map_filter, Hnd.
+Qed.
